@@ -65,7 +65,8 @@ type RouterProject struct {
 	BuildErr  map[string]string // engine -> compiler output ("" = compiled)
 	GofmtDiff map[string]string
 	Spec      *oapi.Doc
-	Engines   []string // engines whose routes package compiled
+	Accepted  bool
+	Engines   []string // engines whose routes package compiled (accepted projects only)
 	probeBin  map[bool]string
 	ProbeErr  string
 	c         *orch.Ctx
@@ -167,8 +168,12 @@ func BuildRouterProject(c *orch.Ctx, l *lab.Lab, bin string, p *synth.Project, o
 		}(e)
 	}
 	wg.Wait()
+	// "accepted" = the spec-and-routes run (first engine) exited 0; the routes file is written before
+	// the spec is validated, so a rejected project may still leave routes files behind - those are
+	// compiled for C09 but never probed
+	rp.Accepted = rp.Gen[engines[0]].Exit == 0
 	for _, e := range engines {
-		if be, ok := rp.BuildErr[e]; ok && be == "" {
+		if be, ok := rp.BuildErr[e]; ok && be == "" && rp.Accepted && rp.Gen[e].Exit == 0 {
 			rp.Engines = append(rp.Engines, e)
 		}
 	}
